@@ -4,7 +4,7 @@
 # (no alarm); exit 2 (undecided) is reported separately and is not an alarm either.
 cd /verif
 declare -A PROPS=( [N1]="C04 C08" [N2]="C03 C07" [N3]="C10" [N6]="C06" [N8]="C08 C01" [N9]="C15" [N10]="C14" [N11]="C16 C15" [N12]="C12" [N13]="C18 C05" [N14]="C17 C05" [N15]="C05 C08" [N16]="C15" [N17]="C16" [N18]="C11 C04"
-  [N19]="C16" [N20]="C19" [N21]="C07 C01 C20" [N22]="C10 C20" [N23]="C13 C12 C09" [N24]="C19" )
+  [N19]="C16" [N20]="C19" [N21]="C07 C01 C20" [N22]="C10 C20" [N23]="C13 C12 C09" [N24]="C19" [N25]="C16" [N26]="C19" [N27]="C16 C15" [N28]="C15 C18" [N29]="C16 C19" [N30]="C19" )
 run_one() {
   n=$1; shift
   W=$(mktemp -d /tmp/neutral.XXXXXX); mkdir -p $W/repo $W/out $W/build
